@@ -532,7 +532,49 @@ class Interp:
     def default_of(self, t):
         return z3.Const("dflt_" + "".join(c if c.isalnum() else "_" for c in t.name), t.sort())
 
+    def _dict_with_unpacked_record(self, n, env):
+        """{**rec, "k": v, ...} where rec is a dict-shaped record: the result is the declared dict-shaped record type
+        whose key set is exactly the union (later keys override earlier ones, as in python)."""
+        vals = {}
+        for k, v in zip(n.keys, n.values):
+            if k is None:
+                src = self.ev(v, env)
+                if not self.spec:
+                    src = self.force(src)
+                if isinstance(src, VRec) and getattr(src.t, "dictlike", False):
+                    for fn, fv in src.fields.items():
+                        vals[fn] = (fv, fn in src.t.optkeys)
+                elif isinstance(src, VDictRec):
+                    for fn, fv in src.fields.items():
+                        vals[fn] = (fv, False)
+                else:
+                    raise Unsupported("dict unpacking of %s" % type(src).__name__)
+            else:
+                c = const_of(self.ev(k, env))
+                if not isinstance(c, str):
+                    raise Unsupported("dict literal with symbolic keys")
+                vals[c] = (self.ev(v, env), False)
+        cands = [t for t in self.ver.types.named.values()
+                 if isinstance(t, TRec) and getattr(t, "dictlike", False) and set(t.fields) == set(vals)]
+        if len(cands) != 1:
+            raise Unsupported("dict unpacking literal: %d declared dict-shaped records have the keys %s" % (len(cands), sorted(vals)))
+        t = cands[0]
+        out = {}
+        for fn, ft in t.fields.items():
+            v, maybe_absent = vals[fn]
+            if maybe_absent:
+                if fn not in t.optkeys or not isinstance(v, VOpt) or v.t != ft:
+                    raise Unsupported("dict unpacking literal: optional key %s does not line up with %s" % (fn, t.nm))
+                out[fn] = v
+            elif fn in t.optkeys:
+                out[fn] = ft.wrap(ft.some(unwrap(v, ft.inner)))
+            else:
+                out[fn] = ft.wrap(unwrap(v, ft))
+        return VRec(out, t)
+
     def ev_Dict(self, n, env):
+        if any(k is None for k in n.keys):
+            return self._dict_with_unpacked_record(n, env)
         keys = []
         for k in n.keys:
             if k is None:
